@@ -168,6 +168,21 @@ def string_shard(asm, acc, sh, deadline):
         judge_string(asm, acc, t)
     for ch in NONASCII:
         judge_string(asm, acc, ch)
+    for t in ['\\ud800', 'a\\udfffb', '\\ud83d\\ude00', 'x\\udc00']:
+        # an escape for a surrogate code point names a character that has no UTF-8 form: nothing well-formed can be emitted
+        acc['n'] += 1
+        o = monitors.observe(asm, 'string ' + t + '\n', tap=False)
+        acc['ctr']['surrogate_escape_cases'] += 1
+        if o.ok:
+            try:
+                o.out.decode('utf-8')
+                well = True
+            except UnicodeDecodeError:
+                well = False
+            if not well:
+                core.add_viol(acc, 'string line %r emitted %s, which is not UTF-8 of any text' % ('string ' + t, o.out.hex()), {'kind': 'surrogate', 'text': t}, {})
+        else:
+            acc['ntkeys'].add(core.ckey('surrogate', t))
         judge_string(asm, acc, 'a' + ch + 'b\\n')
     for k in range(sh['count']):
         text, flags = gen_string(rng)
@@ -353,6 +368,14 @@ def replay(case):
         judge_numeric(asm, acc, case['line'], [tuple(p) for p in case['pieces']], case)
     elif case['kind'] == 'str':
         judge_string(asm, acc, case['text'], case.get('indent', ''))
+    elif case['kind'] == 'surrogate':
+        acc['n'] += 1
+        o = monitors.observe(asm, 'string ' + case['text'] + '\n', tap=False)
+        if o.ok:
+            try:
+                o.out.decode('utf-8')
+            except UnicodeDecodeError:
+                core.add_viol(acc, 'string line %r emitted %s, which is not UTF-8 of any text' % ('string ' + case['text'], o.out.hex()), case, {})
     else:
         judge_include_bytes(asm, acc, case)
     return acc
